@@ -315,11 +315,11 @@ fn strategy(lang: LangId) -> BoxedStrategy<SatCase> {
         mixed_strategy(cfg),
         proptest::collection::vec(0usize..npool, 1..5),
         0u8..5,
-        prop_oneof![Just(0u16), Just(1), Just(4), Just(12), Just(40), Just(400)],
-        proptest::option::weighted(0.3, 0u8..4),
+        proptest::sample::select(vec![0u16, 1, 4, 12, 40, 400]),
+        crate::engine::opt_weighted(0.3, 0u8..4),
         0u8..3,
         any::<bool>(),
-        proptest::option::weighted(0.3, (0u8..3, any::<u16>(), any::<u16>())),
+        crate::engine::opt_weighted(0.3, (0u8..3, any::<u16>(), any::<u16>())),
     )
         .prop_map(|(base, rules, iter_limit, node_limit, hook_fail_at, mode, staged, hook_union)| SatCase { base, rules, iter_limit, node_limit, hook_fail_at, mode, staged, hook_union })
         .boxed()
